@@ -1,4 +1,4 @@
-import Driver.Judge
+import Driver.Dispatch
 open Driver
 
 def splitCase (line : String) : String × String × String :=
@@ -10,7 +10,12 @@ def splitCase (line : String) : String × String × String :=
 def modelLine (line : String) : String :=
   let (k, id, rest) := splitCase line
   let body := match k with
-    | "P" => (runP (parsePCase id rest)).show
+    | "P" =>
+      let c := parsePCase id rest
+      let o := runP c
+      (match runPTwin c o with
+       | some o2 => o.show ++ " || " ++ o2.show
+       | none => o.show)
     | "F" => let c := parseFCase id rest; showF c (runF c)
     | "X" => runX (toks rest)
     | _ => "badcase"
